@@ -98,10 +98,18 @@ fn observe(mode: Mode, path: &[Value], suffix_rounds: usize) -> Vec<Value> {
                             || p["rr"] == json!(true)))
             })
             .collect();
+        let idle: Vec<bool> = (0..2)
+            .map(|e| {
+                let p = w.proj_ep(e);
+                p["rq"].as_array().map(|a| a.is_empty()).unwrap_or(false)
+                    && p["pkt"].as_array().map(|a| a.is_empty()).unwrap_or(false)
+                    && p["rr"] == json!(false)
+            })
+            .collect();
         let st: Vec<String> = (0..2).map(|e| w.proj_ep(e)["st"].as_str().unwrap_or("").to_string()).collect();
         json!({"a": act["a"], "act": act, "res": if o.res.starts_with("panic") { "panic".to_string() } else { o.res.clone() },
                "detail": o.res, "evs": o.evs, "nouts": o.outs.len(), "malformed": newm,
-               "nt": [w.needs_tick_ms(0), w.needs_tick_ms(1)], "busy": busy, "st": st,
+               "nt": [w.needs_tick_ms(0), w.needs_tick_ms(1)], "busy": busy, "idle": idle, "st": st, "answered": w.answered,
                "inflight": w.net[0].len() + w.net[1].len()})
     };
     for act in path {
